@@ -134,15 +134,18 @@ def main():
     if tier() == "quick":
         names = names[:40]
     check_op_order(interp, meta, V, cov, names)
+    import c14_iter
+    c14_iter.run(V, cov)
     c = V.counts()
     coverage = dict(
-        states=cov["paths"], transitions=c.get("discharged", 0), traces_validated_against_impl=0,
+        states=cov["paths"], transitions=c.get("discharged", 0), traces_validated_against_impl=cov.get("native", 0),
         samples=V.obligations[:5] + [o for o in V.obligations if o["status"] != "discharged"][:5],
         obligations=len(V.obligations), discharged=c.get("discharged", 0),
-        functions_encoded=["Process::execute_decorator (MIR)", "Process::execute_op, Process::ensure_trace_capacity, Process::advance_clock (MIR)"],
-        bounds="one decorator / one operation from an arbitrary state; host callbacks are opaque and may fail",
-        not_covered="VmStateIterator forward/backward stepping, historical overflow/memory reconstruction, identity of whole traces across runs, trace reallocation (capacity hint)",
-        sources_fingerprint=repo_fingerprint(["processor/src/lib.rs", "processor/src/operations/mod.rs"]),
+        functions_encoded=["Process::execute_decorator (MIR)", "Process::execute_op, Process::ensure_trace_capacity, Process::advance_clock (MIR)",
+                           "VmStateIterator::next, VmStateIterator::back (MIR) from an arbitrary iterator state: every component (ctx, fmp, stack, memory, operation) is queried at the clock the reported state is labelled with, memory of the reported context, cursor moves by one row, no panic"],
+        bounds="one decorator / one operation from an arbitrary state; host callbacks are opaque and may fail; one iterator step (next / back) from an arbitrary cursor, direction flag and final clock < 2^31, no pending error",
+        not_covered="the historical reconstruction behind the iterator's queries (System::get_ctx_at / get_fmp_at, Stack::get_state_at, Memory::get_state_at are uninterpreted here), the asmop bookkeeping of the iterator, identity of whole traces across runs, trace reallocation (capacity hint), assembling in debug mode",
+        sources_fingerprint=repo_fingerprint(["processor/src/lib.rs", "processor/src/operations/mod.rs", "processor/src/debug.rs"]),
         evaluations=len(V.obligations), distinct_nontrivial=c.get("discharged", 0), rule="one obligation per (decorator variant | operation, path)",
     )
     write_evidence(PROP, "model_checking", coverage, ["host callbacks take the process by shared reference (ProcessState) and are modelled as pure events"], time.time() - t0,
